@@ -290,6 +290,9 @@ var purityUnrelated = []string{"1 + 2 * 3", "'a' + 'b'", "[1, 2, 3]", "len('abc'
 	"9999999999999999999999999999999999 * 1.5", "1000000000000000000000000000000000 + 2.5", "(x).y + len((a)!.b)", "roundBank(0.5) + roundBank(1.5)", "1 / 8 * 3",
 	"floor(-2.5) + ceil(-2.5)", "sqrt(2) * sqrt(2)", "toInt('12.9') + toFloat('1e2')",
 	// results that a cache keyed too coarsely would carry from one evaluation or text to another
+	// spread of an array literal (the call's argument list and the literal's element list are both slices of the tree);
+	// locals read and written by runners that were never given a data map
+	"max([x]...)", "max(x, [1, 2]...)", "min(1, 2, [x, 3]...)", "max([1]...) + max([2, 3]...)", "$z ?? 1", "$rate ?? 1", "$rate = 3, $rate * 2", "typeof $z",
 	"regexp('a', 'a')", "regexp('a', '(')", "regexp('ab', '[')", "regexp('ab', 'a.')", "regexp('(', '(')",
 	"\u0663 + 1", "n\u0663 * 2", "\u0301 + 1", "cafe\u0301 + 1", "\u203f", "a\u203f", "\u2118x", "x\u2118", "\u00aa\u00b7", "\u00b7\u00aa"}
 
@@ -423,16 +426,19 @@ func recordPurity(args []string) int {
 				}
 				t.src = src
 			}
-			j := rng.Intn(len(purityDatas))
+			// data map j, or (j = number of maps) a runner that is never given one
+			j := rng.Intn(len(purityDatas) + 1)
 			h := &HostLog{}
-			dm, err := data.BuildMap(purityDatas[j], h)
-			if err != nil {
-				fmt.Fprintln(os.Stderr, err)
-				return 2
-			}
 			before := TreeDump(t.src)
 			r := formula.NewRunner()
-			r.SetThis(dm)
+			if j < len(purityDatas) {
+				dm, err := data.BuildMap(purityDatas[j], h)
+				if err != nil {
+					fmt.Fprintln(os.Stderr, err)
+					return 2
+				}
+				r.SetThis(dm)
+			}
 			tl := ResolveTop(r, t.src.Expression)
 			var res any
 			switch {
